@@ -6,6 +6,7 @@ import (
 	"regexp"
 	"runtime/debug"
 	"strings"
+	"unicode/utf8"
 
 	"github.com/hashicorp/hcl-lang/decoder"
 	"github.com/hashicorp/hcl/v2"
@@ -184,5 +185,18 @@ func Offsets(src []byte, max int) []int {
 	}
 	add(n)
 	add(n - 1)
+	return out
+}
+
+// BoundaryOffsets is Offsets restricted to character boundaries: an editor
+// never places the cursor inside a multi-byte character, and a position that
+// is not a character boundary has no well-defined column.
+func BoundaryOffsets(src []byte, max int) []int {
+	var out []int
+	for _, o := range Offsets(src, max) {
+		if o == len(src) || utf8.RuneStart(src[o]) {
+			out = append(out, o)
+		}
+	}
 	return out
 }
